@@ -58,6 +58,7 @@ type vfIOCfg struct {
 	maxAttempts int // 1..3 attempts (first k-1 fail)
 	chunkLen    int // upper bound on a chunk's length (bytes)
 	capture     bool
+	termOnly    bool // only termination is asserted (sizes beyond what the content assertions can decide)
 }
 
 func vfNodeIO(cfg vfIOCfg) {
@@ -71,24 +72,35 @@ func vfNodeIO(cfg vfIOCfg) {
 	}
 	attempts := 1 + vfChoice("attempts", cfg.maxAttempts)
 	// the last attempt succeeds, or every attempt fails and the step ends failed ("any final state")
-	finalFails := vfChoice("finalOutcome", 2) == 1
+	finalFails := !cfg.termOnly && vfChoice("finalOutcome", 2) == 1
 	vfIOAttempt, vfIOFails = 0, attempts-1
 	if finalFails {
 		vfIOFails = attempts
 	}
 	vfIOStdout, vfIOStderr = nil, nil
 	for i := 0; i < attempts; i++ {
-		so := vfString("stdout", cfg.chunkLen)
-		// the property quantifies over any bytes except NUL (a NUL cannot be put into the environment)
-		vfAssume(!strings.Contains(so, "\x00"))
+		var so string
+		if cfg.termOnly {
+			so = vfBlob("stdout", cfg.chunkLen) // only its length matters for termination
+		} else {
+			so = vfString("stdout", cfg.chunkLen)
+		}
+		if !cfg.termOnly {
+			// the property quantifies over any bytes except NUL (a NUL cannot be put into the environment)
+			vfAssume(!strings.Contains(so, "\x00"))
+		}
 		vfIOStdout = append(vfIOStdout, so)
-		vfIOStderr = append(vfIOStderr, vfString("stderr", cfg.chunkLen))
+		if cfg.termOnly {
+			vfIOStderr = append(vfIOStderr, "")
+		} else {
+			vfIOStderr = append(vfIOStderr, vfString("stderr", cfg.chunkLen))
+		}
 	}
 	step := dag.Step{Name: "s", ExecutorConfig: dag.ExecutorConfig{Type: "verifio"}, Dir: dir,
 		RetryPolicy: &dag.RetryPolicy{Limit: attempts - 1}}
-	hasStdout := vfChoice("stdoutFile", 2) == 1
-	hasStderr := vfChoice("stderrFile", 2) == 1
-	hasOutput := cfg.capture && vfChoice("output", 2) == 1
+	hasStdout := !cfg.termOnly && vfChoice("stdoutFile", 2) == 1
+	hasStderr := !cfg.termOnly && vfChoice("stderrFile", 2) == 1
+	hasOutput := cfg.capture && (cfg.termOnly || vfChoice("output", 2) == 1)
 	if hasStdout {
 		step.Stdout = dir + "/out.txt"
 	}
@@ -97,6 +109,9 @@ func vfNodeIO(cfg vfIOCfg) {
 	}
 	if hasOutput {
 		step.Output = "VFCAPTURED"
+		if cfg.chunkLen > 65536 {
+			vfClass("captured-output-may-exceed-the-pipe-capacity")
+		}
 	}
 	lg := vfQuietLogger()
 	g, err := NewExecutionGraph(lg, step)
@@ -114,6 +129,11 @@ func vfNodeIO(cfg vfIOCfg) {
 	_ = sc.Schedule(ctx, g, done)
 
 	nd := g.nodes[0]
+	if cfg.termOnly {
+		vfAssert(nd.data.State.Status == NodeStatusSuccess || nd.data.State.Status == NodeStatusError, "C11.big/step-with-captured-output-finishes")
+		vfReach("end")
+		return
+	}
 	last := attempts - 1
 	if finalFails {
 		vfAssert(nd.data.State.Status == NodeStatusError, "C12.run/step-ends-failed-when-every-attempt-fails")
@@ -176,4 +196,9 @@ func VerifHarness_C11_retryrestore() {
 	vfAssert(ok && vs == "VFRESTORED="+val, "C11.retry/captured-output-stays-shared-with-the-retried-steps")
 	vfAssert(g.nodes[1].data.Step.OutputVariables == g.outputVariables, "C11.retry/retried-step-receives-the-shared-outputs")
 	vfReach("end")
+}
+
+// C11.big: a captured output of any size (symbolic length up to 100 000 bytes): the step must finish.
+func VerifHarness_C11_big() {
+	vfNodeIO(vfIOCfg{maxAttempts: 1, chunkLen: 100000, capture: true, termOnly: true})
 }
